@@ -8,6 +8,8 @@
 //                ALL interleavings for (T,C)=(2,1) [70] and, in the thorough tier, (2,2) [12870]; random ones for (3,1),(3,2)
 //  mode gen    : 2..4 decay0_generator instances initialised and shot on threads under random schedules
 //  mode free   : the same generator workloads free-running after a start barrier (meant for the TSan build)
+//  mode lockstep: 2-3 generators on threads, strictly serialised, control handed over at the deviate requests (the harness owns the
+//                deviate source, so no hook is needed): every published nuclide, pairs chosen so that nuclides sharing a helper routine meet
 //
 // Oracle: a RECORDING handler h0 stands in for GSL's aborting default: h0 invoked => the process would have aborted;
 // the handler after all threads joined must be h0; per-thread results bit-identical to a sequential run.
@@ -24,6 +26,8 @@
 #include <bxdecay0/decay0_generator.h>
 #include <bxdecay0/gauss.h>
 #include "../engine/vf.hpp"
+#include "refdict.inc"
+#include "catalog.hpp"
 
 namespace bxdecay0 { namespace verif { extern void (*gauss_schedule_point)(int); } }
 using namespace vf;
@@ -153,6 +157,79 @@ static std::string gwork(int cfg, uint64_t seed, int shots)
   return d;
 }
 
+
+// ---------------------------------------------------------------- lock-step workload: hand-over at deviate requests
+// Exactly one thread runs at any time; a thread gives the turn away when it asks for a deviate (every q-th request) and continues when the turn
+// comes back.  Any state shared between instances that is read after a deviate was drawn and written by the other instance in between
+// (a function-level static envelope, a cache, a scratch buffer) changes the events deterministically.
+struct LockStep
+{
+  std::mutex m; std::condition_variable cv; int turn = 0; std::vector<char> done; bool on = false;
+  void start(int n) { std::lock_guard<std::mutex> l(m); done.assign(n, 0); turn = 0; on = true; }
+  int next_live(int t) { int n = (int)done.size(); for (int k = 1; k <= n; k++) { int u = (t + k) % n; if (!done[u]) return u; } return -1; }
+  void wait_turn(int t) { std::unique_lock<std::mutex> l(m); cv.wait(l, [&] { return turn == t || !on; }); }
+  void yield(int t) { std::unique_lock<std::mutex> l(m); int u = next_live(t); if (u >= 0 && u != t) { turn = u; cv.notify_all(); cv.wait(l, [&] { return turn == t || !on; }); } }
+  void finish(int t) { std::lock_guard<std::mutex> l(m); done[t] = 1; int u = next_live(t); if (u >= 0) turn = u; else on = false; cv.notify_all(); }
+} LS;
+struct StepRandom : public bxdecay0::i_random
+{
+  TapeRandom inner; int t, q, left; bool stepping;
+  StepRandom(Tape & tp, int t_, int q_, bool stepping_) : inner(tp, 0, 1000000), t(t_), q(q_), left(q_), stepping(stepping_) {}
+  double operator()() override { if (stepping && --left <= 0) { left = q; LS.yield(t); } return inner(); }
+};
+struct LCfg { std::string kind, name; int level, mode; double emin, emax; };
+static std::vector<LCfg> & lpool()
+{
+  static std::vector<LCfg> v;
+  if (v.empty()) {
+    for (auto & n : catalog::background_published()) v.push_back({"bkg", n, 0, 0, 0, 0});
+    static const LCfg dbd[] = {{"dbd", "Mo100", 0, 1, 0, 0}, {"dbd", "Mo100", 0, 4, 0, 0}, {"dbd", "Se82", 0, 4, 0.8, 2.2}, {"dbd", "Mo100", 1, 7, 0, 0}, {"dbd", "Nd150", 3, 3, 0, 0}, {"dbd", "Ge76", 3, 3, 0, 0},
+      {"dbd", "Xe136", 0, 5, 0, 0}, {"dbd", "Cd116", 0, 6, 0, 0}, {"dbd", "Te130", 1, 8, 0, 0}, {"dbd", "Cd106", 1, 9, 0, 0}, {"dbd", "Ru96", 0, 10, 0, 0}, {"dbd", "Ce136", 0, 11, 0, 0}, {"dbd", "Ru96", 0, 12, 0, 0},
+      {"dbd", "Nd150", 0, 13, 0, 0}, {"dbd", "Ca48", 0, 14, 0, 0}, {"dbd", "Zr96", 0, 15, 0, 0}, {"dbd", "Xe136", 1, 16, 0.2, 1.0}, {"dbd", "Mo100", 0, 18, 0, 0}, {"dbd", "Se82", 0, 19, 0, 0}, {"dbd", "Nd150", 0, 20, 0, 0},
+      {"dbd", "Bi214", 0, 1, 0, 0}, {"dbd", "Rn222", 0, 4, 0, 0}, {"dbd", "Sn112", 4, 11, 0, 0}, {"dbd", "Cd116", 0, 4, 0.5, 1.5}};
+    for (auto & c : dbd) v.push_back(c);
+  }
+  return v;
+}
+static std::string lwork(const LCfg & c, uint64_t seed, int shots, int t, int q, bool stepping)
+{
+  G g;
+  if (c.kind == "bkg") { g.set_decay_category(G::DECAY_CATEGORY_BACKGROUND); g.set_decay_isotope(c.name); }
+  else { g.set_decay_category(G::DECAY_CATEGORY_DBD); g.set_decay_isotope(c.name); g.set_decay_dbd_level(c.level); g.set_decay_dbd_mode((bxdecay0::dbd_mode_type)c.mode); if (c.emax > 0) g.set_decay_dbd_esum_range(c.emin, c.emax); }
+  Tape it; it.seed = seed; StepRandom ri(it, t, q, stepping); g.initialize(ri);
+  std::string d; bxdecay0::event ev;
+  for (int k = 0; k < shots; k++) { Tape tp; tp.seed = mix(seed, k + 1); StepRandom r(tp, t, q, stepping); g.shoot(r, ev); for (auto & p : ev.get_particles()) { double x[4] = {p.get_px(), p.get_py(), p.get_pz(), p.get_time()}; d.append((const char *)x, sizeof x); d.push_back((char)p.get_code()); } }
+  return d;
+}
+// helper routines (reference call graph) reachable from a pool entry: nuclides that share one are the pairs most likely to share hidden state
+static std::set<std::string> helpers_of(const LCfg & c)
+{
+  std::set<std::string> seen; std::vector<std::string> todo; std::string rn = c.name.substr(0, c.name.find('+'));
+  auto d0 = REF_DISPATCH.find(c.kind + ":" + rn); if (d0 != REF_DISPATCH.end()) todo = d0->second;
+  if (c.kind == "dbd") { todo.push_back("bb"); todo.push_back("mode" + std::to_string(c.mode)); }
+  while (!todo.empty()) { std::string n = todo.back(); todo.pop_back(); if (!seen.insert(n).second) continue; auto cl = REF_CALLS.find(n); if (cl != REF_CALLS.end()) for (auto & x : cl->second) todo.push_back(x); }
+  return seen;
+}
+
+struct LSResult { bool ok = true, refused = false; std::string cls, msg, names; int shots = 0; std::vector<int> q; };
+static LSResult run_lockstep(const std::vector<int> & cs, uint64_t case_seed)
+{
+  LSResult R; auto & P = lpool(); Rng r(case_seed); int T = (int)cs.size(); int shots = r.range(2, 6); R.shots = shots;
+  std::vector<uint64_t> sd(T); std::vector<int> q(T); for (int t = 0; t < T; t++) { sd[t] = r.next() % 100000; q[t] = (int[]){1, 1, 1, 2, 3, 7}[r.range(0, 5)]; } R.q = q;
+  std::vector<std::string> seq(T), con(T); std::vector<std::string> err(T);
+  for (int t = 0; t < T; t++) { try { seq[t] = lwork(P[cs[t]], sd[t], shots, t, q[t], false); } catch (std::exception & e) { R.refused = true; } }
+  if (R.refused) return R;
+  LS.start(T); std::vector<std::thread> th;
+  for (int t = 0; t < T; t++) th.emplace_back([&, t] { LS.wait_turn(t); try { con[t] = lwork(P[cs[t]], sd[t], shots, t, q[t], true); } catch (std::exception & e) { err[t] = e.what(); } LS.finish(t); });
+  for (auto & x : th) x.join();
+  for (int t = 0; t < T; t++) R.names += (t ? " + " : "") + P[cs[t]].name + (P[cs[t]].kind == "dbd" ? ":L" + std::to_string(P[cs[t]].level) + ":M" + std::to_string(P[cs[t]].mode) : "");
+  for (int t = 0; t < T && R.ok; t++) {
+    if (!err[t].empty()) { R.ok = false; R.cls = "lockstep-throws:" + P[cs[t]].name; R.msg = "[" + R.names + "] in lock-step on " + std::to_string(T) + " threads: instance " + std::to_string(t) + " raised '" + err[t] + "' (it does not when run alone)"; }
+    else if (seq[t] != con[t]) { R.ok = false; R.cls = "lockstep-events-differ:" + P[cs[t]].name; R.msg = "[" + R.names + "] in lock-step on " + std::to_string(T) + " threads (control handed over at the deviate requests): instance " + std::to_string(t) + " (" + P[cs[t]].name + ") does not produce the events it produces when run alone"; }
+  }
+  return R;
+}
+
 int main(int argc, char ** argv)
 {
   Args a(argc, argv);
@@ -175,7 +252,9 @@ int main(int argc, char ** argv)
   };
   try {
     if (a.has("replay")) {
-      JV j = jload(a.s("replay")); std::vector<std::vector<KCall>> w; for (auto & t : j.at("work").arr) { std::vector<KCall> v; for (auto & c : t.arr) v.push_back({(int)c.arr[0].num, c.arr[1].num, c.arr[2].num, c.arr[3].num}); w.push_back(v); }
+      JV j = jload(a.s("replay"));
+      if (j.has("lockstep")) { std::vector<int> cs; for (auto & e : j.at("lockstep").arr) cs.push_back((int)e.num); LSResult R = run_lockstep(cs, strtoull(j.s("case_seed").c_str(), nullptr, 10)); dprintf(out_fd, R.ok ? "REPLAY-PASS\n" : "REPLAY-FAIL class=%s %s\n", R.cls.c_str(), R.msg.c_str()); return R.ok ? 0 : 1; }
+      std::vector<std::vector<KCall>> w; for (auto & t : j.at("work").arr) { std::vector<KCall> v; for (auto & c : t.arr) v.push_back({(int)c.arr[0].num, c.arr[1].num, c.arr[2].num, c.arr[3].num}); w.push_back(v); }
       std::vector<int> s; for (auto & e : j.at("schedule").arr) s.push_back((int)e.num);
       KResult r = run_kernel((int)w.size(), w, s); dprintf(out_fd, r.ok ? "REPLAY-PASS\n" : "REPLAY-FAIL class=%s %s\n", r.cls.c_str(), r.msg.c_str()); return r.ok ? 0 : 1;
     }
@@ -249,6 +328,31 @@ int main(int argc, char ** argv)
         if (!same) { report("events-differ", "an instance produced different events when other instances ran on other threads", body); continue; }
         rep.nt(sched_json(cfg) + std::to_string(k)); rep.label("T" + std::to_string(T));
         if (rep.samples.size() < 3) rep.sample("{" + body + "}");
+      }
+    } else if (mode == "lockstep") {
+      auto & P = lpool(); int NP = (int)P.size();
+      // case list: (1) for every helper routine shared by >= 2 pool entries, up to `per` pairs of distinct entries that both reach it; (2) every entry with itself
+      // (other deviates); (3) random pairs and triples
+      std::vector<std::vector<int>> cases; Rng rr(mix(seed, 0xC1203));
+      std::map<std::string, std::vector<int>> users; for (int i = 0; i < NP; i++) for (auto & h : helpers_of(P[i])) users[h].push_back(i);
+      int per = (int)a.i("per_helper", thorough ? 40 : 8);
+      for (auto & u : users) { if (u.second.size() < 2) continue; size_t n = u.second.size(); size_t all = n * (n - 1);
+        if (all <= (size_t)per) { for (int x : u.second) for (int y : u.second) if (x != y) cases.push_back({x, y}); }
+        else for (int k = 0; k < per; k++) { int x = u.second[rr.range(0, (int)n - 1)], y; do { y = u.second[rr.range(0, (int)n - 1)]; } while (y == x); cases.push_back({x, y}); } }
+      rep.counters["lockstep_helper_routines_with_shared_users"] = 0; for (auto & u : users) if (u.second.size() >= 2) rep.counters["lockstep_helper_routines_with_shared_users"]++;
+      for (int i = 0; i < NP; i++) cases.push_back({i, i});
+      long nrand = a.i("random", thorough ? 6000 : 400);
+      for (long k = 0; k < nrand; k++) { int T = rr.chance(0.8) ? 2 : 3; std::vector<int> c; for (int t = 0; t < T; t++) c.push_back(rr.range(0, NP - 1)); cases.push_back(c); }
+      rep.counters["lockstep_cases_total"] = cases.size();
+      for (size_t k = shard; k < cases.size(); k += nsh) {
+        auto & cs = cases[k]; int T = (int)cs.size(); uint64_t case_seed = mix(mix(seed, 0xC1204), k);
+        LSResult R = run_lockstep(cs, case_seed);
+        if (R.refused) { rep.count("lockstep_reference_refused"); continue; }
+        rep.evaluations++;
+        std::string body = "\"lockstep\":" + sched_json(cs) + ",\"case_seed\":\"" + std::to_string(case_seed) + "\",\"names\":" + jstr(R.names) + ",\"shots\":" + std::to_string(R.shots) + ",\"handover_every\":" + sched_json(R.q);
+        if (!R.ok) { report(R.cls, R.msg, body); continue; }
+        rep.nt(sched_json(cs)); rep.label("lockstep:T" + std::to_string(T));
+        if (rep.samples.size() < 3 && cs[0] != cs[1]) rep.sample("{" + body + "}");
       }
     }
   } catch (std::exception & e) { fprintf(res, "HARNESS-ERROR %s\n", e.what()); fflush(res); return 2; }
